@@ -1,5 +1,6 @@
 import NomtModel.Props.C05_Seek
-import NomtModel.Store.SeekerRun
+import NomtModel.Store.SeekerInv
+import NomtModel.Store.SeekerCount
 /-!
 # C05 / C13 — the `Seeker` (`nomt/src/merkle/seek.rs`): request multiplexing over the I/O pool
 
@@ -97,24 +98,91 @@ theorem T5_seeker_slab_reuse (s s' : Slab) (v : IoReq) (k : Nat) :
       simp [this]
     · cases h
 
-/-- **the full statement that is NOT proved in general** (see `notes/Q34.md` (d)): in a world that is `OK`, with a hash
-table in which every probe sequence reaches its page, every run reaches no panic site and every request handed out
-holds `proveSpec view key`.  What is proved: the order half (`T5_seeker_push_order`), the request-level half for every
-interleaving of the request-level operations (`T5_seek_is_proveSpec` — each `Seeker` call is a sequence of those:
-`submit_key_path_request` = `step`s (+ `supplyLeaf` on a leaf-cache hit), the two completion handlers = one
-`supplyPage` / `supplyLeaf` per waiter), and instances by kernel evaluation (below); what is missing is the proof that
-the waiter lists name exactly the requests that wait (the refinement invariant); the differential checks it after
-every call of the real code (harness oracles "no waiter lost", "waiters = loads in progress"). -/
-def T5_seeker_is_proveSpec_statement (W : World Node VH V) (ht : Ht) : Prop :=
-  W.OK → (∀ pid page, W.env.disk.lookup pid = some page → ∃ (j b : Nat), (ht.probes pid)[j]? = some b ∧ ht.label b = some pid ∧
-      ∀ (j' b' : Nat), j' < j → (ht.probes pid)[j']? = some b' → ht.label b' ≠ some pid) →
-  ∀ (maxInflight : Nat) (cache : List (PageId × MPage Node)), MemOK W cache →
-  ∀ (ops : List Seeker.Op), (∀ k, Seeker.Op.push k ∈ ops → k.length = KEY_BITS) →
-    ∃ s, Seeker.run W.env ht { m := { maxInflight := maxInflight, cache := cache } } ops = .ok s ∧
-      ∀ r ∈ s.out, ∀ res, r.result = some res →
+/-- **T5.seeker.spec** (the `Seeker` refines the request-level system of `T5_seek_is_proveSpec`): in a world that is
+`OK`, with a hash table in which every probe sequence reaches its page (`HtOK`), from a fresh seeker over a good page
+set and good in-memory sources, for EVERY `MAX_INFLIGHT`, every leaf cache, every list of calls `push (256-bit key) |
+submit_all | recv ud | recvErr ud | take_completion` and hence every completion order: the run reaches NO panic site
+(none of the `assert!`s, `unwrap`s, `unreachable!`s and index operations of `seek.rs`, nor the slab's), the requests
+are handed out in push order, each once, and every request handed out holds exactly the proof `proveSpec view key`
+(the siblings only when `record_siblings`), at the terminal's position and with the page id of that position.
+Proof: the refinement invariant `MInv` (`Store/SeekerInv.lean`) — a ghost function "what request `i` waits for", the
+waiter list of `q` holds only live requests waiting for `q`, idle requests wait for nothing, the slab's free list, the
+probe counters, the reads in flight — is kept by every call; each step of a request is one of Q18's operations. -/
+theorem T5_seeker_is_proveSpec [DecidableEq Node] [DecidableEq VH] (W : World Node VH V) (hOK : W.OK) (ht : Ht)
+    (hHt : HtOK W ht) (maxInflight : Nat) (cache : List (PageId × MPage Node)) (ps : PageSet Node) (leafCache : List Nat)
+    (hps : PSInv W ps) (hmem : MemOK W cache) (ops : List Seeker.Op)
+    (hk : ∀ k, Seeker.Op.push k ∈ ops → k.length = KEY_BITS) :
+    ∃ s, Seeker.run W.env ht { m := { maxInflight := maxInflight, cache := cache, ps := ps, leafCache := leafCache } } ops = .ok s ∧
+      s.out.map (·.key) ++ s.m.reqs.map (·.key) = pushedKeys ops ∧
+      ∀ r ∈ s.out, ∃ res, r.result = some res ∧
         resultProof res.pos res.sibs res.terminal =
           (if W.env.record then proveSpec W.H KEY_BITS W.view r.key
-           else { proveSpec W.H KEY_BITS W.view r.key with siblings := [] })
+           else { proveSpec W.H KEY_BITS W.view r.key with siblings := [] }) ∧
+        res.pos.path = r.key.take res.pos.depth ∧
+        res.pageId = (if res.pos.depth = 0 then none else some (specPage res.pos.path)) := by
+  obtain ⟨s, aw, e, _, hout⟩ := run_inv W hOK ht hHt ops
+    { m := { maxInflight := maxInflight, cache := cache, ps := ps, leafCache := leafCache } } (fun _ => none)
+    (minv_init W ht maxInflight cache ps leafCache hps hmem) (fun r hr => by simp at hr) hk
+  obtain ⟨o1, o2, _, _⟩ := T5_seeker_push_order W.env ht maxInflight cache ps leafCache ops s e
+  refine ⟨s, e, o1, ?_⟩
+  intro r hr
+  obtain ⟨ps', a, hok⟩ := hout r hr
+  have hc := o2 r hr
+  have hres : ∃ res, r.result = some res := by
+    unfold Req.isCompleted at hc
+    unfold Req.result
+    cases hs : r.st with
+    | completed t => exact ⟨_, rfl⟩
+    | seeking => rw [hs] at hc; cases hc
+    | fetchingLeaf dels it needed => rw [hs] at hc; cases hc
+    | fetchingLeaves page range it needed coll => rw [hs] at hc; cases hc
+  obtain ⟨res, hres⟩ := hres
+  exact ⟨res, hres, completed_result hok hres⟩
+
+/-- **T5.seeker.nostall** (the exact boundary of the stall observation; partial: the re-submission of requests that
+wait for nothing is not covered): for EVERY world, hash table, `MAX_INFLIGHT` and every run in which no read is lost to
+an I/O error (`recvErr` abandons the whole update in the real code), at every moment
+* every waiter list has exactly one load, in flight or parked: `|io_waiters| = reads in flight + |idle_page_loads|`;
+* a seeker that has no room (`!has_room()`) and FEWER than `MAX_INFLIGHT` parked loads has a read in flight —
+  `recv_page` will return;
+* whenever some request waits for a load (`io_waiters` not empty) and fewer than `MAX_INFLIGHT` loads are parked, a read
+  is in flight after `submit_all` (with room, `submit_all` re-probes every parked load).
+So a state "requests wait for I/O, nothing in flight, `submit_all` changes nothing" needs ALL `MAX_INFLIGHT` loads
+parked at once — which `T5_seeker_stall_all_loads_idle_counterexample` shows is enough.  No hypothesis on the world
+(`Store/SeekerCount.lean`: "if the call returns, then …"); that the calls do return is `T5_seeker_is_proveSpec`. -/
+theorem T5_seeker_no_stall_partial (env : Env Node VH V) (ht : Ht) (maxInflight : Nat) (cache : List (PageId × MPage Node))
+    (ps : PageSet Node) (leafCache : List Nat) (ops : List Seeker.Op) (hne : noErr ops) (s : Seeker.Run Node VH V)
+    (h : Seeker.run env ht { m := { maxInflight := maxInflight, cache := cache, ps := ps, leafCache := leafCache } } ops = .ok s) :
+    s.m.waiters.length = s.m.inflight.length + s.m.idleLoads.length ∧
+    (s.m.hasRoom = false → s.m.idleLoads.length < s.m.maxInflight → s.m.inflight ≠ []) ∧
+    (∀ m', s.m.waiters ≠ [] → s.m.idleLoads.length < s.m.maxInflight → submitAll env ht s.m = .ok m' →
+      m'.inflight ≠ []) := by
+  obtain ⟨c0, b0⟩ := cinv_init (Node := Node) (VH := VH) (V := V) maxInflight cache ps leafCache
+  obtain ⟨c, b, _⟩ := run_c env ht ops _ s hne c0 h
+  rw [b0] at b
+  have hcount : s.m.waiters.length = s.m.inflight.length + s.m.idleLoads.length := by
+    simp only [bal] at b
+    omega
+  have hfull : s.m.hasRoom = false → s.m.idleLoads.length < s.m.maxInflight → s.m.inflight ≠ [] := by
+    intro hr hl he
+    unfold Mux.hasRoom at hr
+    have : ¬ s.m.waiters.length < s.m.maxInflight := by simpa using hr
+    rw [he] at hcount
+    simp only [List.length_nil] at hcount
+    omega
+  refine ⟨hcount, hfull, ?_⟩
+  intro m' hw hl hs
+  obtain ⟨_, _, _, mono, room⟩ := submitAll_c env ht _ _ c hs
+  cases hr : s.m.hasRoom with
+  | false => exact mono (hfull hr hl)
+  | true =>
+    by_cases hi : s.m.idleLoads = []
+    · apply mono
+      intro he
+      rw [he, hi] at hcount
+      simp only [List.length_nil] at hcount
+      exact hw (List.length_eq_zero_iff.1 (by omega))
+    · exact room hr hi
 
 /-! ### non-vacuity and the stall
 
@@ -124,6 +192,22 @@ page sits behind one misprobe: its probe sequence reads bucket 5 (another page, 
 def skHt : Ht :=
   { probes := fun p => if p = [] then [5, 9] else [],
     label := fun b => if b = 9 then some [] else if b = 5 then some [1] else none }
+
+/-- the hypotheses of `T5_seeker_is_proveSpec` are met by the example: the world is `OK` (`skW_ok`), the page set is
+empty, the cache is good (`skW_mem`), and the only stored page — the root — is reached by its probe sequence, after
+one bucket that holds another page -/
+example : HtOK skW skHt := by
+  intro pid page h
+  by_cases hp : pid = []
+  · subst hp
+    exact ⟨1, 9, rfl, rfl, fun j' b' hj hb => by
+      have : j' = 0 := by omega
+      subst this
+      have : b' = 5 := by simpa [skHt] using hb.symm
+      subst this
+      decide⟩
+  · have : (pid == ([] : PageId)) = false := by simpa using hp
+    simp [skW, skEnv, List.lookup, this] at h
 
 def skOut (o : Outcome Unit (Seeker.Run T Nat Nat)) : List (Option (Option (Key × Nat) × List T × Nat)) :=
   match o with
@@ -173,6 +257,11 @@ def skEmpty (o : Outcome Unit (Seeker.Run T Nat Nat)) : Option (Bool × Bool × 
 example : skEmpty (Seeker.run skEnv skHt { m := { maxInflight := 2 } }
     [.push skB, .push skA, .submitAll, .recv 0, .submitAll, .recv 0, .take, .submitAll, .recv 0, .take, .take]) =
     some (true, true, false) := by decide +kernel
+
+/-- the hypothesis of `T5_seeker_no_stall_partial` is met by those runs (no `recvErr`), and the stall below sits exactly
+on its boundary: one parked load, `MAX_INFLIGHT = 1` -/
+example : noErr [.push skB, .push skA, .submitAll, .recv 0, .submitAll, .recv 0, .take, .submitAll, .recv 0, .take, .take] ∧
+    noErr [.push skB, .submitAll, .recv 0] := ⟨trivial, trivial⟩
 
 /-- the slab lemma on a slab in use: index 0 freed, index 1 in use — `insert` hands out 0 again -/
 example : ({ entries := [.vac 2, .occ (.leaf 7)], next := 0, len := 1 } : Slab).insert (.leaf 3) =
